@@ -17,12 +17,20 @@ func modelRun(x *SeqCtx, treeEvery int, rebuildAtEnd bool) *Violation {
 	ref := NewRefFS(func() int64 { return time.Now().UnixNano() }, 0o777)
 	ref.UID, ref.GID = os.Getuid(), os.Getgid()
 	okMut := 0
+	streams := map[int]bool{} // handles obtained with Open: a positioned read stream keeps the drive (KF6)
 	v := runOps(x, func(i int, op Op, res Res) *Violation {
 		if op.K == "reopen" || op.K == "rebuild" {
 			for h := range ref.H {
 				ref.Apply(Op{K: "h.close", H: h})
 			}
+			streams = map[int]bool{}
 			return nil
+		}
+		switch {
+		case op.K == "open" && res.Class == "ok":
+			streams[op.H] = true
+		case op.K == "h.close":
+			delete(streams, op.H)
 		}
 		exp := ref.Apply(op)
 		if id, detail := CompareRes(op, res, exp); id != "" {
@@ -30,6 +38,11 @@ func modelRun(x *SeqCtx, treeEvery int, rebuildAtEnd bool) *Violation {
 		}
 		if res.Class == "ok" && isMutating(op.K) {
 			okMut++
+		}
+		if len(streams) > 0 && x.Relax["nopartialreads"] {
+			// KF6: reading the tree while a positioned read stream is open deadlocks the instance
+			x.Stats.Add("tree_comparisons_skipped_open_stream", 1)
+			return nil
 		}
 		if treeEvery > 0 && ((i+1)%treeEvery == 0 || i == len(c.Ops)-1) {
 			obs, probs := Observe(x.St.FS, "/", ObsOpts{Extra: namesOf(c.Ops)})
@@ -305,10 +318,11 @@ func init() {
 			ops, u := GenHistory(r, o)
 			c.Ops = addRestarts(r, ops, 0.03)
 			c.S["style"] = u.Style
+			c.P["yield"] = int64([]int{0, 0, 10, 30}[r.IntN(4)]) // swarm: seeded preemption at the device seams
 			return c
 		},
 		Eval: func(t *testing.T, c *Case, st *Stats, relax Relax) *Violation {
-			return RunSeq(t, c, st, relax, seqOpts{}, func(x *SeqCtx) *Violation { return modelRun(x, 1, false) })
+			return RunSeq(t, c, st, relax, seqOpts{YieldProb: float64(c.Param("yield", 0)) / 100}, func(x *SeqCtx) *Violation { return modelRun(x, 1, false) })
 		},
 	})
 
